@@ -253,6 +253,27 @@ def drive(pid, mod, tier, seed=0, only=None):
         print('ERROR property=%s encoding could not be generated from the current tree:\n%s' % (pid, e))
         write_evidence(pid, mod, tier, seed, [], t0, 0, note='build error: %s' % str(e)[:500])
         return 2
+    # stretch configurations that have never produced a verdict on the unchanged tree (stretch_unvalidated.json) are built but not run
+    # by the registered commands: their oracles were never validated in that parameter regime (two such configurations reported
+    # oracle errors as violations the first time they finished, DESIGN.md section 9).  VERIF_STRETCH_ALL=1 runs them.
+    skipped_unvalidated = []
+    if os.environ.get('VERIF_STRETCH_ALL') != '1':
+        try:
+            unval = set(json.load(open(os.path.join(VERIF, 'stretch_unvalidated.json'))).get(pid, []))
+        except Exception:
+            unval = set()
+        keep = []
+        for j in jobs:
+            base = j.name.split('#')[0]
+            if not j.required and base in unval:
+                if '#' not in j.name:
+                    skipped_unvalidated.append(base)
+            else:
+                keep.append(j)
+        jobs = keep
+        if skipped_unvalidated:
+            print('NOT-RUN (stretch configurations never validated on the unchanged tree; VERIF_STRETCH_ALL=1 runs them): ' + ', '.join(skipped_unvalidated))
+    mod._skipped_unvalidated = skipped_unvalidated
     if only:
         jobs = [j for j in jobs if re.search(only, j.name)]
         mod._partial_run = True
@@ -411,6 +432,7 @@ def write_evidence(pid, mod, tier, seed, results, t0, nviol, knowns=(), noverdic
             'outside_bounds': info.get('outside', ''),
             'stubs': info.get('stubs', []),
             'no_verdict': [r.job.name for r in noverdict],
+            'built_but_not_run': list(getattr(mod, '_skipped_unvalidated', [])),
             'known_findings_hit': [k['key'] for _, _, _, k in knowns],
             'solver_time_s': round(sum(r.solver_s for r in results), 2),
             'tree': tree_id(),
